@@ -360,35 +360,37 @@ func ruleW2(c *Ctx) []Obligation {
 		return false
 	}
 	// flow of a write's result into the bookkeeping stores
-	var reaches func(v ssa.Value, want func(ssa.Instruction, ssa.Value) bool, seen map[ssa.Value]bool) bool
-	reaches = func(v ssa.Value, want func(ssa.Instruction, ssa.Value) bool, seen map[ssa.Value]bool) bool {
+	// start: the block from which the bookkeeping has to be reached on every returning path (nil:
+	// no such requirement); it moves to a callee's entry when the value is followed into it
+	var reaches func(v ssa.Value, want func(ssa.Instruction, ssa.Value) bool, seen map[ssa.Value]bool, start *ssa.BasicBlock) bool
+	reaches = func(v ssa.Value, want func(ssa.Instruction, ssa.Value) bool, seen map[ssa.Value]bool, start *ssa.BasicBlock) bool {
 		if seen[v] || v.Referrers() == nil {
 			return false
 		}
 		seen[v] = true
 		for _, r := range *v.Referrers() {
-			if want(r, v) {
+			if want(r, v) && (start == nil || onEveryReturningPath(start, r.Block())) {
 				return true
 			}
 			switch r := r.(type) {
 			case *ssa.Convert:
-				if reaches(r, want, seen) {
+				if reaches(r, want, seen, start) {
 					return true
 				}
 			case *ssa.ChangeType:
-				if reaches(r, want, seen) {
+				if reaches(r, want, seen, start) {
 					return true
 				}
 			case *ssa.Phi:
-				if reaches(r, want, seen) {
+				if reaches(r, want, seen, start) {
 					return true
 				}
 			case *ssa.MakeInterface:
-				if reaches(r, want, seen) {
+				if reaches(r, want, seen, start) {
 					return true
 				}
 			case *ssa.BinOp:
-				if reaches(r, want, seen) {
+				if reaches(r, want, seen, start) {
 					return true
 				}
 			case *ssa.Store:
@@ -396,7 +398,7 @@ func ruleW2(c *Ctx) []Obligation {
 				if a, ok := r.Addr.(*ssa.Alloc); ok && r.Val == v {
 					for _, ar := range *a.Referrers() {
 						if ld, ok := ar.(*ssa.UnOp); ok && ld.Op == token.MUL {
-							if reaches(ld, want, seen) {
+							if reaches(ld, want, seen, start) {
 								return true
 							}
 						}
@@ -404,9 +406,16 @@ func ruleW2(c *Ctx) []Obligation {
 				}
 			case *ssa.Call:
 				callee := r.Call.StaticCallee()
-				if callee != nil && callee.Pkg != nil && callee.Pkg.Pkg.Path() == pkgIR && len(callee.Params) == len(r.Call.Args) {
+				if callee != nil && callee.Pkg != nil && callee.Pkg.Pkg.Path() == pkgIR && len(callee.Params) == len(r.Call.Args) && len(callee.Blocks) > 0 {
+					next := start
+					if start != nil {
+						if !onEveryReturningPath(start, r.Block()) {
+							continue
+						}
+						next = callee.Blocks[0]
+					}
 					for i, a := range r.Call.Args {
-						if a == v && reaches(callee.Params[i], want, seen) {
+						if a == v && reaches(callee.Params[i], want, seen, next) {
 							return true
 						}
 					}
@@ -508,10 +517,12 @@ func ruleW2(c *Ctx) []Obligation {
 					}
 				}
 			}
-			if nV == nil || !reaches(nV, sizeStore, map[ssa.Value]bool{}) {
+			if nV == nil || !reaches(nV, sizeStore, map[ssa.Value]bool{}, nil) {
 				fail(site.Pos(), "the byte count of the write is not added to the size field: WriteTo under-reports n")
+			} else if !reaches(nV, sizeStore, map[ssa.Value]bool{}, sb) {
+				fail(site.Pos(), "the byte count of the write is added to the size field only on some paths (the update is skipped when the write fails): a write that fails part-way has delivered bytes that WriteTo does not report")
 			}
-			if errV == nil || !reaches(errV, errStore, map[ssa.Value]bool{}) {
+			if errV == nil || !reaches(errV, errStore, map[ssa.Value]bool{}, nil) {
 				fail(site.Pos(), "the error of the write is not stored in the err field: the first write error is lost and later writes continue")
 			}
 		}
@@ -521,6 +532,37 @@ func ruleW2(c *Ctx) []Obligation {
 		obs = append(obs, o)
 	}
 	return obs
+}
+
+// onEveryReturningPath: every path from block `from` to a return of its function passes through
+// block `through` (post-dominance restricted to returning paths; both blocks of one function).
+func onEveryReturningPath(from, through *ssa.BasicBlock) bool {
+	if from == through {
+		return true
+	}
+	if from.Parent() != through.Parent() {
+		return false
+	}
+	seen := map[*ssa.BasicBlock]bool{through: true}
+	var escapes func(b *ssa.BasicBlock) bool
+	escapes = func(b *ssa.BasicBlock) bool {
+		if seen[b] {
+			return false
+		}
+		seen[b] = true
+		if len(b.Instrs) > 0 {
+			if _, ok := b.Instrs[len(b.Instrs)-1].(*ssa.Return); ok {
+				return true
+			}
+		}
+		for _, s := range b.Succs {
+			if escapes(s) {
+				return true
+			}
+		}
+		return false
+	}
+	return !escapes(from)
 }
 
 // usesOnly reports whether e is obj, possibly wrapped in conversions.
